@@ -139,10 +139,12 @@ class Loader:
         shutil.rmtree(self.dir, ignore_errors=True)
 
     def load(self, cases: List[Dict[str, Any]]) -> Any:
+        return self.load_files(eh.database_files(cases))
+
+    def load_files(self, files: Dict[str, str]) -> Any:
         import odxtools.exceptions
         from odxtools.database import Database
         odxtools.exceptions.strict_mode = True
-        files = eh.database_files(cases)
         db = Database()
         db.add_auxiliary_file("job.jar", io.BytesIO(b"job"))
         paths = []
@@ -394,8 +396,9 @@ def run_single(loader: Loader, case: Dict[str, Any], part: Optional[Part] = None
                info: Optional[Dict[str, Any]] = None) -> Tuple[List[Tuple[str, str]], str]:
     """-> (problems, outcome 'loaded' | 'error')"""
     preds = predict(case)
+    files = eh.database_files([case])  # (emission problems are harness errors, not findings: outside the try)
     try:
-        db = loader.load([case])
+        db = loader.load_files(files)
     except Exception as e:  # noqa
         return judge_error(case, preds, e, "", info), "error"
     return judge_loaded(case, preds, db, "", part, info), "loaded"
@@ -544,8 +547,9 @@ def explore_unit(unit: Tuple[Any, ...]) -> Part:
             if not batch:
                 return
             cases = [c for c, _ in batch]
+            files = eh.database_files(cases)
             try:
-                db = loader.load(cases)
+                db = loader.load_files(files)
             except Exception:  # noqa -- some member fails although none should: find it
                 for c, p in batch:
                     single(c, p)
